@@ -3,15 +3,24 @@ import json
 import vlib, uperlib
 
 
+def extension_form(r, zoo):
+    """An out-of-root value of an extensible constraint (extension form, leading bit 1) that does not round-trip / is not the X.691 encoding."""
+    c = r["case"]
+    t = zoo[c["ti"]]
+    ext = (t["k"] == "int" and t["con"]["ext"]) or (t["k"] in ("oct", "bits", "str", "seqof") and t["sz"]["ext"]) or (t["k"] in ("enum", "choice") and t["ext"])
+    return r["class"] in ("roundtrip", "bits", "read-reference") and ext and c.get("ok") and c.get("bits") and c["bits"][0] == 1
+
+
 def run(v):
-    t, zoo, vec, summ, ssum = uperlib.uper_check(v, "C06", classes={"accepted-invalid", "write-panic", "refused-valid"})
+    t, zoo, vec, summ, ssum = uperlib.uper_check(v, "C06", classes={"accepted-invalid", "write-panic", "refused-valid"}, extra=extension_form)
     st = summ["stats"]
     ninvalid = st.get("refused-invalid", 0) + st.get("bad:accepted-invalid", 0)
     v.cov["distinct_nontrivial"] = ninvalid
     v.cov["rule"] = ("The value families of Zoo.tla contain, for every constrained type, the values just outside and far outside each bound "
                      "(INTEGER lb-1, ub+1, ub+300; sizes lb-1, ub+1 for strings, lists, bit and octet strings; one character outside the "
                      "alphabet at the first, middle and last position of each restricted string type). X691!Enc says 'must be refused' "
-                     "(ok = FALSE) unless the constraint is extensible, where the extension form must round-trip (checked with C01/C02). "
+                     "(ok = FALSE) unless the constraint is extensible, where the extension form must be the X.691 one and round-trip (every out-of-root "
+                     "value of an extensible INTEGER / SIZE / ENUMERATED / CHOICE, incl. extension items on both sides of index 64). "
                      "The real writer must return Err; if it returns Ok the bits are decoded and reported. Non-trivial = invalid values "
                      "that could be constructed in the generated Rust type (%d; %d more are unrepresentable there)."
                      % (ninvalid, st.get("unrepresentable-invalid", 0)))
